@@ -464,3 +464,26 @@ func provenUpper(at ssa.Instruction, expr ssa.Value) (int64, bool) {
 	}
 	return best, found
 }
+
+// boundaryRuleFn is boundaryRule with a matcher instead of a fixed atom table: match receives the
+// difference D (canonical sign) and answers with the sign (+1/-1) under which it is the wanted
+// quantity, or 0.
+func (c *Ctx) boundaryRuleFn(key, name string, fns []*ssa.Function, match func(atoms map[string]int) int, t int64, min int, why string) {
+	n := 0
+	for _, p := range partitionsIn(fns) {
+		sign := match(p.atoms)
+		if sign == 0 {
+			continue
+		}
+		pt := p.t
+		if sign < 0 {
+			pt = -p.t - 1
+		}
+		n++
+		c.verdict(pt == t, fmt.Sprintf("%s:%s@%d", key, name, pt), p.pos, fmt.Sprintf("partition %s as required (%s)", p, why),
+			fmt.Sprintf("the comparison splits at %s; required is the split at %d (%s): the boundary case is decided the wrong way (off by one)", p, t, why))
+	}
+	if n < min {
+		c.bad(fmt.Sprintf("%s:%s", key, name), token.NoPos, "found %d comparison(s) of this shape, expected at least %d: the range computation is not recognised (%s)", n, min, why)
+	}
+}
